@@ -8,26 +8,61 @@ short random history of other operations on the same objects.  Observed on the r
   followup_changed  after mutating the result in place (zero_qnumbers / orthonormalize / compress / tensor edits /
                     graph rename), did any operand change?
 The Coq side checks the observation against the operation's descriptor (Model/Alias.v: desc_of / obs_ok).
+
+Second, static tie (case op = 'static-writeset', harness/writeset.py): the write-set of every operation is derived from the
+current source by a fail-closed ast analysis and compared with desc_of inside Coq (Model/AliasStatic.v: static_check);
+`prop` reports every operation whose derived write-set exceeds its descriptor, with file:line and the alias/call chain.
 """
 import copy, hashlib, random
 import numpy as np
 import emit as E
 
 PROP = 'C19'
-COQ_IMPORTS = ['PT.Model.Alias']
-FORM = ('descriptor validation: byte snapshots of every operand before/after, numpy.shares_memory / identity matrix between '
-        'result and operands, follow-up mutations of the result; the observation is checked in Coq against desc_of (obs_ok)')
-RULE = ('every public operation named in the property (39 descriptors) on seeded operands (L in 1..4, d in 1..3, with and without '
+COQ_IMPORTS = ['PT.Model.Alias', 'PT.Model.AliasStatic']
+FORM = ('two ties of the descriptors desc_of to the code.  (1) dynamic, per sampled call: byte snapshots of every operand '
+        'before/after, numpy.shares_memory / identity matrix between result and operands, follow-up mutations of the result; the '
+        'observation is checked in Coq against desc_of (obs_ok).  (2) static, on every run from the CURRENT source '
+        '(harness/writeset.py, case op=static-writeset): a fail-closed Python-ast analysis (interprocedural fixpoint over function '
+        'summaries: parameters possibly written, parameter objects stored into other parameters, aliasing of the result) derives '
+        'the write-set of every concrete function behind every operation of desc_of; the derived table is emitted as a Gallina '
+        'term and ONE evaluation `static_check table` compares it with desc_of and checks that all 38 operations are covered '
+        '(C19_static_table_sound: then lookup table o = Some (desc_of o) for every o).  A derived write-set exceeding the '
+        'descriptor, an unanalysable function, or a returned MPS/MPO/OpGraph that may keep a reference to an operand is a '
+        'property violation reported with file:line and the alias / call chain.')
+RULE = ('every public operation named in the property (38 descriptors) on seeded operands (L in 1..4, d in 1..3, with and without '
         'quantum-number sectors, bond dims 1..4), plain or after a random prefix history; non-trivial = operation returned an '
-        'array-bearing object or modified its target; distinct by (operation, operand digest)')
+        'array-bearing object or modified its target; distinct by (operation, operand digest); plus one static case covering all '
+        '158 functions of the package')
 SHARD = 400
 IMPL_PARALLEL = True
 TRUSTED = ['abstract cell/ownership model (Model/Alias.v); the Python/NumPy object model itself (views, base arrays) is not formalised',
-           'descriptors desc_of are validated per call by snapshots, not proved from the source']
+           'descriptors desc_of are tied to the code (a) per call by snapshots and (b) statically by harness/writeset.py; neither tie '
+           'is a proof inside Coq: the analyser (about 1800 lines of Python) and its tables join the trusted base',
+           'writeset.py tables: EXT_FRESH (np.array/zeros/full/identity/arange/block/concatenate/tensordot/kron/where/argsort/cumsum/'
+           'intersect1d/exp/sqrt/add.outer/linalg.norm,qr,svd, scipy eigh_tridiagonal/expm, sparse csr_array/csc_array/hstack, '
+           'copy.deepcopy return objects sharing nothing with their arguments and write no argument), EXT_VIEW (np.reshape/transpose/'
+           'asarray/diag/ravel... may return a view of argument 0), EXT_MUTATE (np.copyto, fill_diagonal, put, place, putmask, out=), '
+           'method tables M_MUT/M_MUT_STORE (fill sort append extend insert remove pop clear update reverse add discard '
+           'difference_update resize setflags itemset put normal...), M_VIEW (reshape transpose view ravel squeeze swapaxes conj '
+           'diagonal; also .T .real .imag and every subscript), M_FRESH, M_SCALAR, M_ELEM; a name in no table and in no library class '
+           'is treated as a call that may write its receiver and arguments',
+           'writeset.py policies: np.einsum is fresh only with >= 2 operands; `.copy()` is ndarray.copy unless the receiver is a '
+           'list/dict/set allocated in the same function or read from a list/dict/set-valued field of a library class (then shallow); '
+           'arithmetic on operands of unknown type allocates its result (numeric, not list concatenation, same exception); annotations int/float/complex/bool/str and Sequence[int]-like are trusted (immutable scalars); '
+           'dict keys are immutable; lambdas / nested functions passed as function-valued parameters are analysed in place at the '
+           'call site, other stored callables may write everything they can reach; try/with/global/nonlocal/yield/star-arguments/'
+           'exec/eval/getattr/setattr/unknown decorators/inheritance make a function UNKNOWN (= may write every operand)',
+           'not seen by the static analysis: aliasing created inside C code of numpy/scipy beyond the tables (e.g. a future numpy '
+           'returning views from tensordot/einsum with 2 operands), buffer-protocol / ctypes tricks, __dict__ manipulation, monkey '
+           'patching, threads; regions are collapsed per parameter (no field sensitivity), so the analysis can only over-report']
 PARTIAL = ('proved for all histories of the abstract machine: no-sharing invariant, frame property, pure operations change nothing, '
-           'in-place algorithms write only their documented target, results are fresh and their later mutation never alters operands. '
-           'That each real operation behaves as its descriptor says is validated on sampled calls (bytes, shares_memory), not proved.')
-ASSUMPTIONS = ['numpy.shares_memory and byte equality of .tobytes() detect every aliasing/mutation of ndarray operands']
+           'in-place algorithms write only their documented target, results are fresh and their later mutation never alters operands; '
+           'proved about the static tie: if static_check succeeds on the emitted table then every operation has a row and every row '
+           'carries exactly desc_of (C19_static_table_sound, C19_static_rows_sound, all_ops complete and duplicate free). '
+           'That each real operation behaves as its descriptor says is (1) validated on sampled calls (bytes, shares_memory) and '
+           '(2) derived from the current source by a conservative static analysis outside Coq on every run; it is not proved in Coq.')
+ASSUMPTIONS = ['numpy.shares_memory and byte equality of .tobytes() detect every aliasing/mutation of ndarray operands',
+               'the classification tables and policies of harness/writeset.py (listed under trusted_base) describe numpy/scipy/builtins correctly']
 
 OPS = ['mps_add', 'mps_sub', 'mpo_add', 'mpo_sub', 'mpo_matmul', 'apply_operator', 'vdot', 'norm', 'operator_average',
        'operator_inner_product', 'operator_density_average', 'as_vector', 'as_matrix', 'from_vector', 'split_mps_tensor',
@@ -37,6 +72,26 @@ OPS = ['mps_add', 'mps_sub', 'mpo_add', 'mpo_sub', 'mpo_matmul', 'apply_operator
        'mps_orthonormalize', 'mpo_orthonormalize', 'mps_compress',
        'tdvp_singlesite', 'tdvp_twosite', 'dmrg_singlesite', 'dmrg_twosite',
        'graph_add', 'graph_simplify', 'graph_flip']
+
+
+def corpus():
+    # the static tie: one case, evaluated from the current source on every run
+    return [{'op': 'static-writeset'}]
+
+
+def impl_static(case):
+    import os
+    import writeset
+    root = os.environ.get('VERIF_REPO', '/repo')
+    try:
+        rep = writeset.analyze(root)
+    except Exception as e:       # fail closed
+        return {'static': True, 'crash': '%s: %s' % (type(e).__name__, e), 'rows': [], 'violations':
+                ['static write-set analysis crashed (%s: %s); every operation counts as unknown' % (type(e).__name__, e)],
+                'sharing': [], 'notes': [], 'stats': {}, 'table': '[]'}
+    rep['static'] = True
+    rep['table'] = writeset.gallina_table(rep)
+    return rep
 
 
 def cases(rng, tier):
@@ -318,6 +373,8 @@ def impl_history(case):
 
 
 def impl(case):
+    if case['op'] == 'static-writeset':
+        return impl_static(case)
     if case['op'] == 'history':
         return impl_history(case)
     import warnings
@@ -514,6 +571,9 @@ def _kind(op):
 
 
 def prop(case, r):
+    if case['op'] == 'static-writeset':
+        # source-derived write-set exceeds the descriptor / function not analysable / result may keep a reference to an operand
+        return ['static: ' + m for m in r.get('violations', [])] + ['static (result freshness): ' + m for m in r.get('sharing', [])]
     if 'skip' in r:
         return []
     if case['op'] == 'history':
@@ -541,6 +601,8 @@ def prop(case, r):
 
 
 def coq(case, r):
+    if case['op'] == 'static-writeset':
+        return 'static_check %s' % r['table']
     if case['op'] == 'history':
         terms = ['obs_ok (desc_of Op_%s) %s %s %s' % (st['op'], E.lst([E.boolean(b) for b in st['changed']]),
                                                        E.boolean(st['shares']), E.boolean(st['followup_changed'])) for st in r['steps']]
@@ -551,7 +613,15 @@ def coq(case, r):
                                                  E.boolean(r['shares']), E.boolean(r['followup_changed']))
 
 
+def coq_diag(case, r):
+    if case['op'] == 'static-writeset':
+        return 'filter (fun r => negb (row_ok r)) %s' % r['table']
+    return coq(case, r) or 'true'
+
+
 def klass(case, r):
+    if case['op'] == 'static-writeset':
+        return 'static-writeset/%d-rows/%d-functions' % (len(r.get('rows', [])), r.get('stats', {}).get('functions', 0))
     if case['op'] == 'history':
         return 'history/%d-steps' % len(r.get('steps', []))
     if 'skip' in r:
@@ -560,6 +630,8 @@ def klass(case, r):
 
 
 def nontrivial(case, r):
+    if case['op'] == 'static-writeset':
+        return len(r.get('rows', [])) >= 38 and 'crash' not in r
     if case['op'] == 'history':
         return len(r.get('steps', [])) >= 2
     return 'error' not in r and 'skip' not in r
